@@ -5,7 +5,47 @@ from __future__ import annotations
 from . import joint
 
 PROP = "C03"
-units = joint.units
+
+
+def units(tier, seed):
+    return joint.units(tier, seed) + [{"kind": "overlap", "tier": tier}]
+
+
+# Delimiters that can overlap themselves ("::", "--", "aba") next to a CURIE prefix that ends with the delimiter's leading part:
+# prefix + delimiter then contains the delimiter *before* the place where it was appended, although the prefix itself does
+# not contain the delimiter (so the configuration is inside C03's quantifier).
+OVERLAP_CONFIGS = [
+    ("::", [["a:", "http://ac/", [], [], None]]),
+    ("::", [["a:", "http://ac/", [], [], None], ["a", "http://a/", [], [], None]]),
+    ("--", [["x-", "http://x/", ["y"], [], None]]),
+    ("aba", [["nab", "http://n/", [], [], None]]),
+    ("::", [["b", "http://b/", [":"], [], None]]),      # the overlapping name is only a synonym: compress never writes it
+]
+
+
+def check_overlap(case):
+    """compress(u) of such a converter must still expand back (C03's first clause); the signature is kept apart from the
+    generic ones because this is a listed finding (known_findings.json) - anything else that goes wrong here has another signature."""
+    from ..impl import Converter, to_record
+    from ..universe import recs_from_json
+
+    fails = []
+    d, recs = case["delim"], recs_from_json(case["recs"])
+    conv = Converter([to_record(r) for r in recs], delimiter=d)
+    for r in recs:
+        for up in r.uri_prefixes:
+            for ident in ("x", "", "1" + d + "2"):
+                u = up + ident
+                c = conv.compress(u)
+                if c != r.prefix + d + ident:
+                    fails.append(("compress-differs-from-reference", f"records {case['recs']} delimiter {d!r}: compress({u!r}) = {c!r}"))
+                    continue
+                allx = safe(conv.expand_all, c)
+                if allx is None or u not in allx:
+                    overlapping = (r.prefix + d).find(d) != len(r.prefix)
+                    sig = "self-overlapping-delimiter/compressed-curie-does-not-expand-back" if overlapping else "lossless/uri-not-among-expand_all-of-its-curie"
+                    fails.append((sig, f"records {case['recs']} delimiter {d!r}: compress({u!r}) = {c!r} but expand_all({c!r}) = {allx!r}"))
+    return fails
 
 
 def safe(f, *a, **k):
@@ -68,10 +108,20 @@ def check_config(conv, model, Q, fails, where, ctx):
 
 
 def run_unit(unit, ctx):
+    if unit.get("kind") == "overlap":
+        for d, recs in OVERLAP_CONFIGS:
+            case = {"kind": "overlap", "delim": d, "recs": recs}
+            ctx.count("overlap_configs")
+            ctx.count("transitions")
+            for sig, msg in check_overlap(case)[:1]:
+                ctx.violation(f"{PROP}/{sig}", msg, case)
+        return
     joint.run_unit_with(check_config, PROP, unit, ctx)
 
 
 def replay(case):
+    if case.get("kind") == "overlap":
+        return [(f"{PROP}/{s_}", m) for s_, m in check_overlap(case)]
     return joint.replay_with(check_config, PROP, case)
 
 
